@@ -515,6 +515,7 @@ class FIXSchema:
         self._messages: dict[str, SchemaMessage] = {}
         self._messages_types: dict[str, SchemaMessage] = {}
         self._header = {}
+        self._trailer = {}
         self._types = set()
 
         self._parse(xml_or_path.getroot())
@@ -605,6 +606,14 @@ class FIXSchema:
 
         self._header = self._parse_msg_set(SchemaHeader(), element)
 
+    def _parse_trailer(self, element: ET.Element | None):
+        assert self._field2tag, "parse fields first!"
+        if element is None:
+            return
+        assert element.tag == "trailer"
+
+        self._trailer = self._parse_msg_set(SchemaSet(name="Trailer"), element)
+
     def _parse_field(self, element: ET.Element):
         assert element.tag == "field"
 
@@ -629,6 +638,7 @@ class FIXSchema:
             self._parse_field(element)
 
         self._parse_header(root.find("header"))
+        self._parse_trailer(root.find("trailer"))
 
         all_components = [e for e in root.find("components")]
         full_count = len(all_components)
@@ -711,7 +721,15 @@ class FIXSchema:
                 raise FIXMessageError(f"msg tag={tag} not in schema")
             field = self._tag2field[tag]
 
-            if field in self._header:
+            if field in self._header or field in self._trailer:
+                # required header fields are checked in _validate_header()
+                fschema = (
+                    self._header[field]
+                    if field in self._header
+                    else self._trailer[field]
+                )
+                if isinstance(fschema, SchemaField) and not msg.is_group(tag):
+                    fschema.validate_value(val)
                 continue
 
             if field not in schema_msg:
